@@ -537,3 +537,75 @@ split; move=> h X //.
 Qed.
 
 End AllRowwise.
+
+(* ------------------------------------------------------------------------ *)
+(* single-row inputs (one-row 2-D array, 1-D profile) take the same            *)
+(* expression as a row of a many-row image (C17: all input shapes)             *)
+(* ------------------------------------------------------------------------ *)
+Section SingleRow.
+Variable F : fieldType.
+Variable n : nat.
+
+Lemma dasch_single_row (D W : 'M[F]_n) (dr : F) (x : 'rV[F]_n) :
+  [/\ dasch_two_point_onerow_dr D dr x = dasch_two_point_dr D dr x,
+      dasch_two_point_1d_dr D dr x = dasch_two_point_dr D dr x,
+      dasch_three_point_onerow_dr D dr x = dasch_three_point_dr D dr x &
+      dasch_three_point_1d_dr D dr x = dasch_three_point_dr D dr x] /\
+  (dasch_onion_peeling_onerow_dr W dr x = dasch_onion_peeling_dr W dr x /\
+   dasch_onion_peeling_1d_dr W dr x = dasch_onion_peeling_dr W dr x).
+Proof. by do !split. Qed.
+
+Lemma daun_single_row (B : 'M[F]_n) (dr : F) (x : 'rV[F]_n) :
+  [/\ daun_forward_deg0_none_onerow_dr B dr x = daun_forward_deg0_none_dr B dr x,
+      daun_forward_deg0_none_1d_dr B dr x = daun_forward_deg0_none_dr B dr x,
+      daun_inverse_deg0_none_onerow_dr B dr x = daun_inverse_deg0_none_dr B dr x &
+      daun_inverse_deg0_none_1d_dr B dr x = daun_inverse_deg0_none_dr B dr x] /\
+  [/\ daun_forward_deg3_none_onerow_dr B dr x = daun_forward_deg3_none_dr B dr x,
+      daun_forward_deg3_none_1d_dr B dr x = daun_forward_deg3_none_dr B dr x,
+      daun_inverse_deg3_none_onerow_dr B dr x = daun_inverse_deg3_none_dr B dr x &
+      daun_inverse_deg3_none_1d_dr B dr x = daun_inverse_deg3_none_dr B dr x].
+Proof. by do !split. Qed.
+
+(* a row of the many-row result is the single-row result of that row *)
+Lemma dasch_row_of_image (D : 'M[F]_n) (dr : F) h (X : 'M[F]_(h, n)) (i : 'I_h) :
+  row i (dasch_two_point_dr D dr X) = dasch_two_point_1d_dr D dr (row i X) /\
+  row i (dasch_three_point_dr D dr X) = dasch_three_point_1d_dr D dr (row i X).
+Proof.
+by rewrite /dasch_two_point_dr /dasch_three_point_dr /dasch_two_point_1d_dr /dasch_three_point_1d_dr
+           !linearZ /= !row_mul.
+Qed.
+
+(* daun default == onion_peeling on single-row inputs and with a pixel size *)
+Lemma daun_default_eq_onion_peeling_shapes (B W : 'M[F]_n) (dr : F) (x : 'rV[F]_n) h (X : 'M[F]_(h, n)) :
+  is_trig_mx B -> W = B^T ->
+  [/\ daun_inverse_deg0_float0_dr B dr X = dasch_onion_peeling_dr W dr X,
+      daun_inverse_deg0_none_1d_dr B dr x = dasch_onion_peeling_1d_dr W dr x &
+      daun_inverse_deg0_none_onerow_dr B dr x = dasch_onion_peeling_onerow_dr W dr x].
+Proof.
+move=> tB eW.
+have E h' (Y : 'M[F]_(h', n)) : daun_inverse_deg0_float0_dr B dr Y = dasch_onion_peeling_dr W dr Y.
+  have -> : daun_inverse_deg0_float0_dr B dr Y = dr^-1 *: daun_inverse_deg0_float0_dr1 B Y by [].
+  rewrite (daun_default_eq_onion_peeling Y tB eW).
+  by rewrite /dasch_onion_peeling_dr1 /dasch_onion_peeling_dr invr1 scale1r.
+by split; [exact: E | exact: (E 1%N x) | exact: (E 1%N x)].
+Qed.
+
+End SingleRow.
+
+(* basex with the intensity correction: still one fixed matrix, scaled by dr *)
+Section BasexCorrected.
+Variable F : fieldType.
+Variable n : nat.
+Variables (M Mc : 'M[F]_n) (cor : 'rV[F]_n).
+
+Lemma basex_corrected_dr (dr : F) :
+  basex_matrix_forward_corr_dr M Mc cor dr = dr *: basex_matrix_forward_corr_dr1 M Mc cor /\
+  basex_matrix_inverse_corr_dr M Mc cor dr = dr^-1 *: basex_matrix_inverse_corr_dr1 M Mc cor.
+Proof. by split. Qed.
+
+Lemma basex_corrected_is_colmul :
+  basex_matrix_forward_corr_dr1 M Mc cor = colmul (basex_A_forward_exact M Mc) cor /\
+  basex_matrix_inverse_corr_dr1 M Mc cor = colmul (basex_A_inverse_exact M Mc) cor.
+Proof. by split. Qed.
+
+End BasexCorrected.
